@@ -5,14 +5,14 @@ NOTES = ("Contract-based deductive verification with CBMC on C text sliced from 
 
 CHECKS = {
  "C05": dict(
-   text="Proof for all inputs of the escape decoding leaves (hex_to_u32_nocheck over 2^32 inputs, codepoint_to_utf8 over 2^32 code points, handle_unicode_codepoint over every ordered pair of \\u escapes, kEscapedMap over 256 bytes) against an RFC 8259/3629 oracle; further units are added as they are built.",
+   text="Proof for all inputs of the escape decoding leaves (hex_to_u32_nocheck over 2^32 inputs, codepoint_to_utf8 over 2^32 code points, handle_unicode_codepoint over every ordered pair of \\u escapes, kEscapedMap over 256 bytes) against an RFC 8259/3629 oracle; StringBlock::Find and its predicates are proved for all blocks of both vector widths. parseStringInplace is a bounded stand-in in the thorough tier only (raw length <= 8).",
    design_ref="DESIGN.md section 5 (C05)",
    note="Trusted: CBMC, the textual lowering, the RFC oracle in specs/include/rfc8259.h. Undecided residue listed in evidence.",
    technique="CBMC contract/assertion proofs over the full input domain of mechanically sliced C (loop-free harnesses: complete)"),
 }
 
 CHECKS["C11"] = dict(
-   text="Unbounded contract proofs (loop invariants + ghost indices, any len <= 2^31-1 including 0, any pos <= len) that every on-demand scanner leaf (skip_space_safe, GetNextToken<3|4>, SkipString, GetNonSpaceBits, GetStringBits, SkipLiteral/EqBytes4; avx2 and sse instantiations) reads only inside [data, data+len), keeps pos monotone and <= len on success; SkipScanner::SkipOne and GetArrayElem are proved against the callee contracts (slice start < pos' <= len). Driver GetOnDemand and SkipContainer: see level_note.",
+   text="Unbounded contract proofs (loop invariants + ghost indices, any len <= 2^31-1 including 0, any pos <= len) that every on-demand scanner leaf (skip_space_safe, GetNextToken<3|4>, SkipString, GetNonSpaceBits, GetStringBits, SkipLiteral/EqBytes4; avx2 and sse instantiations) reads only inside [data, data+len), keeps pos monotone and <= len on success; SkipScanner::SkipOne and GetArrayElem are proved against the callee contracts (slice start < pos' <= len). The GetOnDemand goto driver is a bounded stand-in (path <= 3 steps, each back-edge at most twice, any len) against contract stubs generated from the same contract text; SkipContainer is proved unbounded in the thorough tier only (about 20 min per instantiation).",
    design_ref="DESIGN.md section 5 (C11)",
    note="Trusted: CBMC, lowering rules, intrinsic/SIMD-wrapper models (sample-validated). Stated bound len <= 2^31-1 (2^31-65 for container skipping). Undecided residue is listed in the evidence file under 'undecided'.",
    technique="CBMC function contracts + loop contracts (DFCC) on mechanically sliced C; callers checked against callee contracts")
@@ -29,7 +29,7 @@ CHECKS["C16"] = dict(
    technique="CBMC function contracts enforced by DFCC on mechanically sliced member functions (loop-free: complete); bounded unwinding for list walks")
 
 CHECKS["C06"] = dict(
-   text="Growth contracts of the write buffer every emitter writes through (internal::Stack, lowered from stack.h): for every well-formed starting state (allocated with any capacity <= 2^38 and any fill incl. full and capacity 0; the all-null moved-from state) Reserve yields max(old, request) capacity in a block of SONIC_ALIGN(capacity) bytes, Grow(cnt) guarantees End()+cnt <= Begin()+Capacity() on both growth branches, and both preserve Size() and every content byte (ghost index); Push<char>, Push(s,n), Push5_8, PushSize, and Grow(k) followed by unchecked pushes of <= k bytes write only inside the capacity. Complete (loop-free) proofs. The serializer driver SerializeImpl, validity of the emitted text, parse-back equality and idempotence are NOT decided (listed as undecided in the evidence).",
+   text="Growth contracts of the write buffer every emitter writes through (internal::Stack, lowered from stack.h): for every well-formed starting state (allocated with any capacity <= 2^38 and any fill incl. full and capacity 0; the all-null moved-from state) Reserve yields max(old, request) capacity in a block of SONIC_ALIGN(capacity) bytes, Grow(cnt) guarantees End()+cnt <= Begin()+Capacity() on both growth branches, and both preserve Size() and every content byte (ghost index); Push<char>, Push(s,n), Push5_8, PushSize, and Grow(k) followed by unchecked pushes of <= k bytes write only inside the capacity. Complete (loop-free) proofs. SerializeImpl itself is checked bounded (each goto back-edge at most once) against these growth contracts and the extent contracts of the emitters: every unchecked push is covered by the Reserve/Grow before it (6n+35 per string, 33 per number, 8 per literal, 3/2 per bracket, n+1 per raw value). Validity of the emitted text, parse-back equality and idempotence are NOT decided.",
    design_ref="DESIGN.md section 5 (C06)",
    note="Trusted: CBMC, lowering, CBMC's realloc model with allocation failure excluded (the code asserts non-null). Stated preconditions: Reserve(n>=1); Grow(0) only with capacity >= 1 (otherwise realloc(p,0)). Pointer checks are off inside Grow and Size only (capacity test past the end of the block; Size() right after realloc); emitter extents for strings/integers are C09/C08.",
    technique="CBMC function contracts enforced by DFCC on mechanically sliced member functions (loop-free: complete)")
@@ -44,6 +44,17 @@ CHECKS["C08"] = dict(
    design_ref="DESIGN.md section 5 (C08)",
    note="Assumed, not machine-checked: (1) monotonicity of unsigned division by a constant (only the end points are checked); (2) positional notation dec(h*10^k + l) = dec(h) ++ pad_k(l). Trusted: CBMC (z3 back end for the two division-heavy jobs), lowering, intrinsic models of packus/add/store. Observations: `-val` for INT64_MIN; `out -= lz` one byte before a value that starts the buffer.",
    technique="exhaustive native enumeration of the finite kernels + CBMC contract proofs of the composition (kernels replaced by contracts with uninterpreted digit functions)")
+
+CHECKS["C04"] = dict(
+   text="Bounded checks of the real parseNumber (+str2int, carry_one) against an RFC 8259 section 6 oracle: every text of at most 12 bytes of any shape; texts of at most 30 bytes of the shape [-]0.00...0 + 3 free bytes (zeros written with many digits); texts of at most 27 bytes with >= 22 digits + 3 free bytes (19/20/21-digit integers); thorough tier: every text of at most 26 bytes. Decided: accept iff the grammar accepts and pos_ lands on the first byte that cannot continue the number; integers within uint64 / int64 delivered exactly with the right kind, others as Double; signed zero; the float converters are reached only with a non-zero mantissa and in-range table indices; a dropped non-zero digit is always reported (trunc) and never reaches an exact-mantissa path. parseFloatingFast's table indices: complete. Correct rounding of the converters is NOT decided.",
+   design_ref="DESIGN.md section 5 (C04)",
+   note="Converters (AtofEiselLemire64, ParseFloatingNormalFast, AtofNative) are contract-only stubs; simd_str2int is an assumed scalar contract. Two genuine defects found by this check were repaired (known_findings.json).",
+   technique="CBMC bounded model checking of the mechanically sliced parseNumber with converter preconditions as assertions (bounded stand-in) + one complete loop-free proof")
+CHECKS["C15"] = dict(
+   text="The shared x86 kernels whose contract is a deterministic function of the input (GetNonSpaceBits, GetNextToken<3|4>, StringBlock::Find + predicates, CopyAndGetEscapMask; GetStringBits frame) are proved against the same contract for the avx2 (VEC_LEN 32) and sse (VEC_LEN 16) instantiation, so their results are identical; SkipString is checked bounded (len <= 40) against one scalar oracle for both widths; the runtime-dispatch wrappers in x86_ifuncs/*.h are checked syntactically to be pure forwarders. SkipContainer, Quote, parseStringInplace, the DOM driver and serializer across configurations are NOT decided.",
+   design_ref="DESIGN.md section 5 (C15)",
+   note="Trusted: intrinsic/SIMD-wrapper models for both widths, GCC's ifunc resolution and -march code generation. The forwarding check is a supporting static fact, not a proof.",
+   technique="the same CBMC contracts enforced on both instantiations of the sliced kernels (complete / unbounded) + bounded oracle check + syntactic forwarding check")
 
 NOT_APPLICABLE = {
  "C01": "driver parseImpl is a goto state machine over C++ containers and a templated SAX handler; no contract lowering achieved yet (leaf recognisers are proved under C04/C05/C11)",
